@@ -113,6 +113,10 @@ func (conn *Conn) recv() {
 			req := new(SrvReq)
 			select {
 			case req.Rc = <-conn.rchan:
+				/* a buffer from before Tversion lowered msize must not carry longer replies */
+				if len(req.Rc.Buf) > int(conn.Msize) {
+					req.Rc.Buf = req.Rc.Buf[0:conn.Msize]
+				}
 			default:
 				req.Rc = NewFcall(conn.Msize)
 			}
